@@ -33,6 +33,18 @@ pub struct Sc {
     /// not leak into the next one): hashed and judged first
     #[serde(default)]
     pub prelude: Option<Box<Call>>,
+    /// a nested call: when the outer reader is asked for its `at_read`-th read,
+    /// it first hashes another input with the library (same thread, outer call
+    /// in flight) - as a reader that is itself built on the library would.
+    /// Both results must be right.
+    #[serde(default)]
+    pub nested: Option<Box<Nested>>,
+}
+
+#[derive(Clone, Debug, Serialize, Deserialize)]
+pub struct Nested {
+    pub at_read: u64,
+    pub call: Call,
 }
 
 #[derive(Clone, Debug, Serialize, Deserialize)]
@@ -394,6 +406,30 @@ impl Property for C13 {
         } else {
             None
         };
+        let nested = if rng.chance(1, 6) {
+            let nmode = if rng.chance(1, 2) { Mode::Patch } else { Mode::File };
+            let ndata = match nmode {
+                Mode::Patch => gen_patch(rng, Tier::Quick),
+                Mode::File => {
+                    let n = *rng.pick(&[0usize, 1, 64, 200, 9000, 20000]);
+                    gen_bytes(rng, n)
+                }
+            };
+            // the inner reader only splits its reads (no faults): its result is fully determined
+            let nscript: Vec<ReadStep> = (0..rng.urange(0, 6)).map(|_| ReadStep::Give(rng.urange(1, 300))).collect();
+            Some(Box::new(Nested {
+                at_read: rng.urange(1, 8) as u64,
+                call: Call {
+                    mode: nmode,
+                    // usually the same algorithm and entry point as the outer call
+                    alg: if rng.chance(3, 4) { alg } else { rng.usize_below(6) },
+                    data: ndata,
+                    script: nscript,
+                },
+            }))
+        } else {
+            None
+        };
         Sc {
             mode,
             alg,
@@ -402,6 +438,7 @@ impl Property for C13 {
             wrap,
             names,
             prelude,
+            nested,
         }
     }
 
@@ -416,6 +453,7 @@ impl Property for C13 {
                 wrap: None,
                 names: vec![],
                 prelude: None,
+                nested: None,
             };
             if let Err(mut v) = one_call(&pre_sc, ctx) {
                 v.detail = format!("(earlier call) {}", v.detail);
@@ -587,6 +625,25 @@ impl Property for C13 {
 fn one_call(sc: &Sc, ctx: &mut Ctx) -> Outcome {
         let alg = ALGS[sc.alg];
         let reader = SimReader::new(sc.data.clone(), sc.script.clone());
+        let inner_result: std::rc::Rc<std::cell::RefCell<Option<Result<String, String>>>> = Default::default();
+        let reader = match &sc.nested {
+            Some(n) => {
+                let call = n.call.clone();
+                let slot = inner_result.clone();
+                reader.with_hook(
+                    n.at_read,
+                    Box::new(move || {
+                        let mut r = SimReader::new(call.data.clone(), call.script.clone());
+                        let res = match call.mode {
+                            Mode::File => ALGS[call.alg].hash_file(&mut r),
+                            Mode::Patch => ALGS[call.alg].hash_patch(&mut r),
+                        };
+                        *slot.borrow_mut() = Some(res.map_err(|e| e.to_string()));
+                    }),
+                )
+            }
+            None => reader,
+        };
 
         let log = reader.log();
         let work = Work::start();
@@ -609,6 +666,26 @@ fn one_call(sc: &Sc, ctx: &mut Ctx) -> Outcome {
             }
         };
         work.stop(ctx, sc.data.len());
+        if let Some(n) = &sc.nested {
+            if let Some(got) = inner_result.borrow().as_ref() {
+                ctx.probe("nested-call-ran");
+                ctx.fault("nested_call_in_reader");
+                let want = match n.call.mode {
+                    Mode::File => ref_digest(n.call.alg, &n.call.data),
+                    Mode::Patch => ref_digest(n.call.alg, &crate::refdigest::patch_filter(&n.call.data)),
+                };
+                ensure!(
+                    got.as_ref() == Ok(&want),
+                    "nested-call-wrong",
+                    "a call made from inside the outer call's reader ({:?}, {} bytes, {}) returned {:?}, the standard gives {}",
+                    n.call.mode,
+                    n.call.data.len(),
+                    ALG_NAMES[n.call.alg],
+                    got,
+                    want
+                );
+            }
+        }
         let log = log.borrow();
         log.absorb(ctx, "read");
         ctx.event("mode", sc.mode as u64, sc.alg as u64);
